@@ -61,6 +61,17 @@ class Path:
                 out.append((c[2], expr_of(self, c[3]), expr_of(self, c[4]), e[2]))
         return out
 
+    def switches(self):
+        """integer switches decided on this path: [(discriminant tree, value or 'otherwise')] in path order"""
+        sw = {}
+        out = []
+        for e in self.log:
+            if e[0] == "switch":
+                sw[e[1]] = e[2]
+            elif e[0] == "choice" and str(e[1]).startswith("switch@") and e[1] in sw:
+                out.append((expr_of(self, sw[e[1]]), e[2]))
+        return out
+
     def all_choices(self, regex):
         r = re.compile(regex)
         return [(n, v) for n, v in self.choices if r.search(str(n))]
